@@ -1,7 +1,7 @@
 (* C02 -- KNN (K>1) and join-provenance neighbor scores are exact Shapley values.  Statements only. *)
 From Coq Require Import List Arith ZArith QArith Bool.
 From DS Require Import Util.SumQ Spec.Shapley Model.ADD Spec.Count Spec.Knn Model.Bruteforce Model.ShapleyAdd
-     Proofs.BruteforceShapley Proofs.OracleProofs.
+     Proofs.BruteforceShapley Proofs.OracleProofs Proofs.KnnShapley.
 Import ListNotations.
 Local Open Scope Q_scope.
 
@@ -10,14 +10,42 @@ Local Open Scope Q_scope.
 Theorem C02_max_cardinality : forall n s, (s <= n - 1)%nat -> (0 < binom (n - 1) s)%nat.
 Proof. intros n s H. apply binom_pos. exact H. Qed.
 
-(* Full statement (kept visible, not asserted): for all K >= 1, unit counts, conjunctive hypergraphs, labels and
-   pairwise distinct distances the loop model over the counting specification equals the Shapley value of v_knn.
-   Every run evaluates both sides inside Coq on the generated instances (flag model = spec). *)
-Definition C02_add_is_shapley_full_statement : Prop :=
-  forall (n K C : nat) rows labels dists ucols nulls i, (i < n)%nat -> (1 <= K)%nat ->
-    (forall d, In d dists -> NoDup (map Qred d)) ->
-    let ps := map (fun d => mkProb n rows labels d (n - 1) K C) dists in
-    nth i (shapley_add ps (map (fun p => count_spec p) ps) ucols nulls n) 0
-    == shapley n (v_knn K C rows labels dists ucols nulls) i.
+(* one validation point: the loop of compute_shapley_add (boundary pairs, filters, argmax, weight count / C(n-1, size))
+   over the exact coalition counts returns n times the Shapley value of the K-nearest-neighbour game *)
+Theorem C02_add_point_is_shapley : forall n K C rows labels dist ucol null i,
+  (i < n)%nat -> (1 <= K)%nat ->
+  (forall r, (r < length rows)%nat -> (nth r labels 0 < C)%nat) ->
+  (forall r r', (r < length rows)%nat -> (r' < length rows)%nat -> nth r dist 0 == nth r' dist 0 -> r = r') ->
+  nth i (shapley_add_point (mkProb n rows labels dist (n - 1) K C) (count_spec (mkProb n rows labels dist (n - 1) K C)) ucol null) 0
+  == qn n * shapley n (knn_point K C rows labels dist ucol null) i.
+Proof. exact add_point_is_shapley. Qed.
+
+(* all validation points: for every K >= 1, number of units, conjunctive hypergraph (rows : the units each row needs --
+   shared units, rows needing several units, units owning several or no rows), encoded labels (below the class count)
+   and pairwise distinct distances per validation point, the model of compute_shapley_add over the exact coalition
+   counts IS the Shapley value (by definition, Spec/Shapley.v) of the game v_knn of the property *)
+Theorem C02_add_is_shapley : forall n K C rows labels dists ucols nulls i,
+  (i < n)%nat -> (1 <= K)%nat ->
+  (forall r, (r < length rows)%nat -> (nth r labels 0 < C)%nat) ->
+  (forall d, In d dists -> length d = length rows /\ NoDup (map Qred d)) ->
+  nth i (shapley_add (map (fun d => mkProb n rows labels d (n - 1) K C) dists)
+                     (map (fun p => count_spec p) (map (fun d => mkProb n rows labels d (n - 1) K C) dists)) ucols nulls n) 0
+  == shapley n (v_knn K C rows labels dists ucols nulls) i.
+Proof. exact add_is_shapley. Qed.
+
+(* with pairwise distinct distances exactly one row of a K-or-more-element row set has rank K: the rank-based
+   definition `nearest` selects exactly the K nearest rows *)
+Theorem C02_rank_count : forall (d : nat -> Q) (P : list nat), NoDup P ->
+  (forall r r', In r P -> In r' P -> d r == d r' -> r = r') -> forall K, (1 <= K)%nat ->
+  length (filter (fun t => Nat.eqb (nle d P t) K) P) = if Nat.leb K (length P) then 1%nat else 0%nat.
+Proof. exact rank_count. Qed.
+
+(* non-vacuity: a three-unit hypergraph with a shared unit and a two-unit row, K = 2, meets the hypotheses, and both
+   sides evaluate to the same non-trivial vector *)
+Example C02_instance : add_is_shapley_instance_statement.
+Proof. exact add_is_shapley_instance. Qed.
 
 Print Assumptions C02_max_cardinality.
+Print Assumptions C02_add_point_is_shapley.
+Print Assumptions C02_add_is_shapley.
+Print Assumptions C02_rank_count.
